@@ -51,8 +51,13 @@ def main():
     def rec(kind, case, viols):
         results.append([kind, case, viols])
 
-    # 1. every module imports
+    # orders 4 and 5: a process that has imported nothing but the package itself goes straight to the factories (refused strings
+    # first / as listed): what the import-everything pass would have loaded is not loaded yet
+    early_order = int(sys.argv[4]) if len(sys.argv) > 4 else 0
     import pyscsi
+    if early_order >= 4:
+        return factories(repo, has_sgio, has_iscsi, results, rec)
+    # 1. every module imports
     mods = ["pyscsi"]
     for m in pkgutil.walk_packages(pyscsi.__path__, "pyscsi."):
         mods.append(m.name)
@@ -127,6 +132,12 @@ def main():
         v.append(("facade_plain", "facade over a plain object raised %s: %s" % (type(e).__name__, e)))
     rec("facade", "plain", v)
 
+    return factories(repo, has_sgio, has_iscsi, results, rec)
+
+
+def factories(repo, has_sgio, has_iscsi, results, rec):
+    from vf.sim import nodes, registry
+    from vf.sim.target import Target
     # 4. device factories
     from pyscsi.utils import init_device
     node = nodes.Node(lambda g: Target())
@@ -166,6 +177,8 @@ def main():
         calls.sort(key=lambda c: (c[3] is None, c[0], c[1], str(c[2])))       # explicit initiator names first
     elif order == 3:
         calls = calls[1::2] + calls[0::2]
+    elif order == 4:
+        calls.sort(key=lambda c: (c[1][:5] == "/dev/" or c[1][:8] == "iscsi://", c[0] != "init_device"))      # strings nobody handles first
     for (fn, dev, rw, ini) in calls:
         v = []
         del ENTERED[:]
